@@ -862,7 +862,11 @@ fn exec_dec(prop: &str, spec: &DecSpec, source: &mut dyn OpSource) -> RunOut {
     // C08: bounded liveness
     if complete && matches!(prop, "C08" | "C02" | "C10") {
         if !run.finished {
-            viols.push(viol("C08", "stream-did-not-finish", format!("{} events, {} calls, {} of {} bytes consumed", run.events, run.calls.len(), run.consumed, n)));
+            // only when the environment did its part (everything delivered, EOF
+            // raised): a schedule that never delivers is no fault of the code
+            if run.env_done {
+                viols.push(viol("C08", "stream-did-not-finish", format!("{} events, {} calls, {} of {} bytes consumed", run.events, run.calls.len(), run.consumed, n)));
+            }
         }
         let own_calls = run.calls.iter().filter(|c| c.cap >= min_cap(spec.form16)).count().saturating_sub(run.env_calls);
         if own_calls > 4 * n + 16 {
@@ -1111,7 +1115,9 @@ fn exec_enc(prop: &str, spec: &EncSpec, source: &mut dyn OpSource) -> RunOut {
     }
     if complete && matches!(prop, "C08" | "C04") {
         if !run.finished {
-            viols.push(viol("C08", "stream-did-not-finish", format!("{} events, {} calls for {} characters", run.events, run.calls.len(), nchars)));
+            if run.env_done {
+                viols.push(viol("C08", "stream-did-not-finish", format!("{} events, {} calls for {} characters", run.events, run.calls.len(), nchars)));
+            }
         }
         let min = enc_min_cap(spec.enc, spec.repl);
         let own_calls = run.calls.iter().filter(|c| c.cap >= min).count().saturating_sub(run.env_calls);
